@@ -18,7 +18,7 @@ from mc.harness import TableEvaluator, make_manager, make_transforms, scipy_entr
 PROPERTY = "C12"
 RULE = (
     "E3 explicit-state BFS on the real DefaultTrackerHandler inside a real Plan, driven through Plan.emit_event with "
-    "FINISHED_EVALUATION events built from real result objects. Event alphabet: weighted objective {NaN,0,1,1(tie),2} x "
+    "FINISHED_EVALUATION events built from real result objects. Event alphabet: weighted objective {NaN,0,1,1(tie),1-2^-40,2} x "
     "feasibility {feasible, violation just below tol, bound / linear / non-linear violation just above tol} x kind "
     "{FunctionResults, functions=None, GradientResults} x source {tracked, other}, plus events carrying a pair of results, plus the user resetting the tracker (plan.set(tracker, 'results', None)); "
     "x tolerance {1e-10, None, 0.5, 0.0} x transforms {none, scaling, sign-flip (maximization)} x what {best,last}. State = "
@@ -41,14 +41,15 @@ BOUNDS = {
     "thorough": "closure for 24 configurations; no-merge depth 4; BasicOptimizer conformance for all traces of length <=4",
 }
 
-OBJECTIVES = ["nan", "0", "1", "1b", "2"]
+OBJECTIVES = ["nan", "0", "1", "1b", "1m", "2"]
 FEAS = ["ok", "below", "bound", "linear", "nonlinear"]
 KINDS = ["func", "nofunc", "grad"]
 SOURCES = ["tracked", "other"]
 
 
 def obj_value(sym: str) -> float:
-    return {"nan": math.nan, "0": 0.0, "1": 1.0, "1b": 1.0, "2": 2.0}[sym]
+    # "1m" is lower than "1" by a relative 2**-40 only: still an improvement
+    return {"nan": math.nan, "0": 0.0, "1": 1.0, "1b": 1.0, "1m": 1.0 - 2.0**-40, "2": 2.0}[sym]
 
 
 def single_events() -> list[tuple[Any, ...]]:
@@ -288,7 +289,7 @@ def list_or(x: Any) -> Any:
 
 # ------------------------------------------------------------------ BasicOptimizer conformance
 
-E2E_ALPHABET = [(o, f) for o in ("0", "1", "2") for f in ("ok", "nonlinear", "bound")] + [("nan", "ok")]
+E2E_ALPHABET = [(o, f) for o in ("0", "1", "2") for f in ("ok", "nonlinear", "bound")] + [("nan", "ok"), ("1m", "ok")]
 
 
 def run_basic(trace: list[tuple[str, str]], tname: str) -> Judgement:
@@ -372,7 +373,7 @@ def run_basic(trace: list[tuple[str, str]], tname: str) -> Judgement:
 
 # ------------------------------------------------------------------ real evaluator steps with batches and transforms
 
-STEP_ALPHABET = [(o, f) for o in ("0", "1", "2") for f in ("ok", "nonlinear")] + [("failed", "ok")]
+STEP_ALPHABET = [(o, f) for o in ("0", "1", "2") for f in ("ok", "nonlinear")] + [("failed", "ok"), ("1m", "ok")]
 
 
 def run_steps(rows: list[tuple[str, str]], tname: str, split: Any) -> Judgement:
